@@ -2,6 +2,7 @@ package eng
 
 import (
 	"bytes"
+	"crypto/sha256"
 	"encoding/json"
 	"fmt"
 	"go/ast"
@@ -12,6 +13,7 @@ import (
 	"os"
 	"os/exec"
 	"path/filepath"
+	"runtime/debug"
 	"sort"
 	"strings"
 
@@ -22,6 +24,7 @@ import (
 // registered by the repository's packages - the oracle is the descriptor, not the templates).
 type genMethod struct {
 	Name             string `json:"name"`
+	GoName           string `json:"go_name"`
 	FullName         string `json:"full_name"`
 	Input            string `json:"input"`
 	Output           string `json:"output"`
@@ -219,6 +222,46 @@ func PrepareGen(id string) (*genCtx, error) {
 		structOblig(cur, "gen/current[cmd/protoc-gen-gorums/gengorums/template_static.go]", ok, detail, id)
 		os.Remove(cp + ".bak")
 	}
+	// Binding is verified on stubs regenerated from RENAMED descriptors: every method is spelled in
+	// lower_snake_case in memory, which leaves every generated Go identifier as it is (the packages
+	// still compile against the committed message code) but makes the wire name of a method differ
+	// from all of them. The schema contracts are rendered from the renamed descriptors.
+	var renamed []genService
+	out, err = runCmd(tmp, g.gentool, "table", "renamed")
+	if err != nil || json.Unmarshal([]byte(out), &renamed) != nil || len(renamed) != len(g.Table) {
+		structOblig(cur, "gen/renamed-table[binding table from descriptors with lower_snake_case method names]", false, truncate(out, 2000), id)
+		return g, nil
+	}
+	nRenamed := 0
+	for si, s := range renamed {
+		for mi, m := range s.Methods {
+			if m.Name != g.Table[si].Methods[mi].Name {
+				nRenamed++
+			}
+			if m.goName() != g.Table[si].Methods[mi].Name {
+				structOblig(cur, fmt.Sprintf("gen/renamed-table[%s.%s keeps its Go identifier]", s.Service, m.Name), false, "renaming changed the Go identifier: "+m.goName(), id)
+			}
+		}
+		dir, param := genTarget(s)
+		outdir := filepath.Join(tmp, "regen-renamed", mangle(s.File))
+		o, err := runCmd(tmp, g.gentool, "regen", g.plugin, param, s.File, outdir, "renamed")
+		if err != nil {
+			structOblig(cur, fmt.Sprintf("gen/regenerate-renamed[%s]", s.File), false, "the plugin failed on the descriptor with lower_snake_case method names: "+truncate(o, 1500), id)
+			continue
+		}
+		var names []string
+		json.Unmarshal([]byte(o), &names)
+		for _, n := range names {
+			regen, _ := os.ReadFile(filepath.Join(outdir, n))
+			committedPath := filepath.Join(RepoDir, dir, n)
+			if s.File == "zorums.proto" {
+				committedPath = filepath.Join(RepoDir, dir, filepath.Base(n))
+			}
+			g.Overlay[committedPath] = regen
+		}
+	}
+	structOblig(cur, "gen/renamed-table[methods renamed]", nRenamed > 0, fmt.Sprintf("%d methods carry a wire name that differs from every Go identifier", nRenamed), id)
+	g.Table = renamed
 	for p := range pkgSet {
 		g.Pkgs = append(g.Pkgs, p)
 	}
@@ -252,6 +295,14 @@ var genEntries = map[string]string{
 	"quorumcall": "c.RawConfiguration.QuorumCall", "async": "c.RawConfiguration.AsyncCall", "correctable": "c.RawConfiguration.CorrectableCall",
 }
 
+// goName is the Go identifier of the method in generated code.
+func (m genMethod) goName() string {
+	if m.GoName != "" {
+		return m.GoName
+	}
+	return m.Name
+}
+
 func (m genMethod) kind() string {
 	if m.CallType == "quorumcall" && m.Async {
 		return "async"
@@ -271,7 +322,7 @@ func (g *genCtx) contracts(id string) string {
 			if k == "rpc" || k == "unicast" {
 				recv = "Node"
 			}
-			fmt.Fprintf(&b, "//@ func (*%s.%s).%s\n//@   props %s\n//@   ghost ncalls Int = 0\n", ps, recv, m.Name, id)
+			fmt.Fprintf(&b, "//@ func (*%s.%s).%s\n//@   props %s\n//@   ghost ncalls Int = 0\n", ps, recv, m.goName(), id)
 			for kind, entry := range genEntries {
 				fmt.Fprintf(&b, "//@   on call %q\n", entry)
 				if kind != k {
@@ -407,7 +458,7 @@ func (g *genCtx) ScanServers(s *Session, id string) *FuncResult {
 				}
 			}
 			walk(hf)
-			structOblig(res, base+"/calls-impl-method-once", len(implCalls) == 1 && implCalls[0] == m.Name, fmt.Sprintf("handler calls impl.%v, want exactly impl.%s", implCalls, m.Name), id, "C04")
+			structOblig(res, base+"/calls-impl-method-once", len(implCalls) == 1 && implCalls[0] == m.goName(), fmt.Sprintf("handler calls impl.%v, want exactly impl.%s", implCalls, m.goName()), id, "C04")
 			structOblig(res, base+"/releases-on-return", releases >= 1, fmt.Sprintf("%d deferred/explicit ctx.Release() in the handler closure", releases), id, "C04")
 			switch {
 			case m.CallType == "multicast" || m.CallType == "unicast":
@@ -516,6 +567,16 @@ func (g *genCtx) GeneratorRuns(id string, runs int) *FuncResult {
 				first = o
 				break
 			}
+			// names, order and content of everything emitted
+			var names []string
+			json.Unmarshal([]byte(o), &names)
+			h := sha256.New()
+			for _, n := range names {
+				b, _ := os.ReadFile(filepath.Join(out, n))
+				fmt.Fprintf(h, "%s %d\n", n, len(b))
+				h.Write(b)
+			}
+			o = fmt.Sprintf("%s sha256=%x", o, h.Sum(nil))
 			if i == 0 {
 				first = o
 			} else if o != first {
@@ -524,7 +585,7 @@ func (g *genCtx) GeneratorRuns(id string, runs int) *FuncResult {
 			os.RemoveAll(filepath.Join(g.Tmp, fmt.Sprintf("det%d", i)))
 		}
 		structOblig(res, fmt.Sprintf("gen/deterministic[%s, %d runs, %s]", s.File, runs, param), same,
-			"order and names of the emitted files over repeated runs: "+truncate(first, 300), id)
+			"order, names and bytes of the emitted files over repeated runs: "+truncate(first, 300), id)
 	}
 	// illegal combinations on zorums.proto's plain quorum call / multicast methods
 	type combo struct {
@@ -705,4 +766,172 @@ func mapRangeIsOrderInsensitive(s *Session, fn *ssa.Function, rg *ssa.Range) (bo
 	}
 	sort.Strings(why)
 	return false, "the loop body has order-dependent effects: " + truncate(strings.Join(why, "; "), 400)
+}
+
+// NestedCallTypesExclusive proves, for every entry of a call-type table that carries nested call
+// types, that the check functions of its nested entries are pairwise exclusive: deriveCallType
+// ranges over the nested map and returns the first entry whose check function holds, so its
+// result is independent of Go's map iteration order iff at most one of them holds for any method.
+// The check functions (closures of the package initialiser, or named functions) are the real
+// code, inlined symbolically over an arbitrary method.
+func NestedCallTypesExclusive(s *Session, id string) []*FuncResult {
+	var out []*FuncResult
+	type entry struct {
+		fn    *ssa.Function
+		label string
+	}
+	groups := map[ssa.Value][]entry{}
+	var order []ssa.Value
+	nested := map[ssa.Value]bool{}
+	fnOf := func(v ssa.Value) *ssa.Function {
+		for {
+			switch u := v.(type) {
+			case *ssa.Function:
+				return u
+			case *ssa.MakeClosure:
+				v = u.Fn
+			case *ssa.ChangeType:
+				v = u.X
+			default:
+				return nil
+			}
+		}
+	}
+	for _, sp := range s.P.SPkgs {
+		if !s.P.Verified[sp.Pkg.Path()] {
+			continue
+		}
+		init := sp.Func("init")
+		if init == nil {
+			continue
+		}
+		for _, b := range init.Blocks {
+			for _, in := range b.Instrs {
+				switch i := in.(type) {
+				case *ssa.MapUpdate:
+					al, ok := i.Value.(*ssa.Alloc)
+					if !ok || al.Referrers() == nil {
+						continue
+					}
+					var fn *ssa.Function
+					for _, ref := range *al.Referrers() {
+						if fa, ok := ref.(*ssa.FieldAddr); ok && fa.Referrers() != nil {
+							st := derefType(fa.X.Type())
+							if st == nil {
+								continue
+							}
+							str, ok := st.Underlying().(*types.Struct)
+							if !ok || str.Field(fa.Field).Name() != "chkFn" {
+								continue
+							}
+							for _, r2 := range *fa.Referrers() {
+								if sto, ok := r2.(*ssa.Store); ok && sto.Addr == ssa.Value(fa) {
+									fn = fnOf(sto.Val)
+								}
+							}
+						}
+					}
+					if _, seen := groups[i.Map]; !seen {
+						order = append(order, i.Map)
+					}
+					label := s.P.SrcLineFrom(i.Pos())
+					path := s.P.PathAt(i.Pos())
+					for k := len(path) - 1; k >= 0; k-- {
+						if kv, ok := path[k].(*ast.KeyValueExpr); ok {
+							label = s.P.NodeText(kv.Key)
+							break
+						}
+					}
+					groups[i.Map] = append(groups[i.Map], entry{fn, label})
+				case *ssa.Store:
+					if fa, ok := i.Addr.(*ssa.FieldAddr); ok {
+						if st := derefType(fa.X.Type()); st != nil {
+							if str, ok := st.Underlying().(*types.Struct); ok && str.Field(fa.Field).Name() == "nestedCallType" {
+								v := i.Val
+								if ct, ok := v.(*ssa.ChangeType); ok {
+									v = ct.X
+								}
+								nested[v] = true
+							}
+						}
+					}
+				}
+			}
+		}
+	}
+	res := &FuncResult{Name: "nested-call-types", HasContract: true}
+	out = append(out, res)
+	ngroups := 0
+	for _, m := range order {
+		if !nested[m] {
+			continue
+		}
+		ngroups++
+		es := groups[m]
+		for a := 0; a < len(es); a++ {
+			for b := a + 1; b < len(es); b++ {
+				name := fmt.Sprintf("nested-call-types/exclusive[%s | %s]", es[a].label, es[b].label)
+				if es[a].fn == nil || es[b].fn == nil {
+					structOblig(res, name, false, "the check function of a nested call type could not be resolved to a function", id)
+					continue
+				}
+				out = append(out, s.verifyExclusive(name, es[a].fn, es[b].fn, id))
+			}
+		}
+	}
+	structOblig(res, "nested-call-types/tables-found", ngroups > 0, fmt.Sprintf("%d call-type entries with nested call types", ngroups), id)
+	return out
+}
+
+// verifyExclusive: for every non-nil argument, f and g (one pointer parameter, boolean result) do not both hold.
+func (s *Session) verifyExclusive(name string, f, g *ssa.Function, id string) (res *FuncResult) {
+	x := NewExec(s.W, nil, nil, name)
+	res = &FuncResult{Name: name, HasContract: true}
+	defer func() {
+		if r := recover(); r != nil {
+			if se, ok := r.(specErr); ok {
+				res.Err = "contract error: " + se.msg
+			} else {
+				res.Err = fmt.Sprintf("engine error: %v\n%s", r, debug.Stack())
+			}
+		}
+		x.finish(res)
+		for _, o := range res.Obligs {
+			o.Props = []string{id}
+		}
+	}()
+	if len(f.Params) != 1 || len(g.Params) != 1 || !types.Identical(f.Params[0].Type(), g.Params[0].Type()) {
+		panic(specErr{"check functions must take one method argument"})
+	}
+	st := x.blankState()
+	st.Assume(Gt(st.top, IntLit(1)))
+	x.entry = st.clone()
+	x.assumeAxioms(st)
+	pt := f.Params[0].Type()
+	m := x.D.Const("lv_method", x.D.SortOf(pt))
+	st.Assume(x.D.WF(m, pt, st.top, 0))
+	st.Assume(Neq(m, Zero))
+	env := &Env{x: x, st: st, old: st, binds: map[string]Bound{"m": {V: m, T: pt}}, pkg: f.Pkg.Pkg.Path(), noLocals: true}
+	// protogen never hands out a method without its descriptor
+	if pre, err := parseClause("m.Desc != nil", "protogen", 0); err == nil {
+		st.Assume(x.evalBool(env, pre))
+		s.CS.Assumptions = appendUnique(s.CS.Assumptions, "protogen.Method values handed to the call-type check functions are non-nil and carry a non-nil descriptor (Desc)")
+	}
+	c := &Clause{Text: "!(" + f.Name() + "(m) && " + g.Name() + "(m))", File: s.P.Fset.Position(f.Pos()).Filename, Line: s.P.Fset.Position(f.Pos()).Line}
+	rf, _ := x.specInline(env, c, f, []SymVal{m})
+	rg, _ := x.specInline(env, c, g, []SymVal{m})
+	o := x.oblig("statement", "lemma", []string{id + ".determinism"}, f.Pos())
+	o.PosStr = s.P.PosStr(f.Pos())
+	o.Src = c.Text
+	x.Assert(st, o, Not(And(rf.(Term), rg.(Term))))
+	return res
+}
+
+func appendUnique(xs []string, s string) []string {
+	for _, x := range xs {
+		if x == s {
+			return xs
+		}
+	}
+	return append(xs, s)
 }
